@@ -59,6 +59,23 @@ def main():
         rep = "" if not r["detected"] else "%s / %s" % ("yes" if r.get("replay_fails_on_changed_tree") else "no", "yes" if r.get("replay_passes_on_unchanged_tree") else "no")
         lines.append("| %s | %s | %s | %s |" % (name, prop, caught, rep))
     s = re.sub(r"(<!-- BEGIN sensitivity-table[^>]*-->\n).*?(<!-- END sensitivity-table -->)", lambda mm: mm.group(1) + "\n".join(lines) + "\n" + mm.group(2), s, flags=re.S)
+    # behaviour-preserving changes: one row per change, the four quick checks' exit codes
+    ben = {}
+    for f in sorted(glob.glob(os.path.join(VERIF, "reports", "benign-*.json"))):
+        if "-seed" in os.path.basename(f) or "-only-" in os.path.basename(f) or "before-fix" in os.path.basename(f):
+            continue
+        for r in json.load(open(f))["results"]:
+            if "checked" in r:
+                ben.setdefault(r["change"], {})[r["checked"]] = r["check_rc"]
+            else:
+                ben.setdefault(r["change"], {})["tests"] = r["existing_tests_pass"]
+    lines = ["| change (`benign/<name>`) | written against | what it changes | existing tests | C03 | C04 | C12 | C14 |", "|---|---|---|---|---|---|---|---|"]
+    for d in sorted(glob.glob(os.path.join(VERIF, "benign", "*", "meta.json"))):
+        m = json.load(open(d))
+        b = ben.get(m["name"], {})
+        cell = lambda k: {None: "not run", 0: "silent", 1: "**ALARM**", 2: "**harness error**"}.get(b.get(k), str(b.get(k)))
+        lines.append("| %s | %s | %s | %s | %s | %s | %s | %s |" % (m["name"], m["property"], m.get("summary", "").replace("|", "/"), {None: "not run", True: "pass", False: "**fail**"}[b.get("tests")], cell("C03"), cell("C04"), cell("C12"), cell("C14")))
+    s = re.sub(r"(<!-- BEGIN benign-table[^>]*-->\n).*?(<!-- END benign-table -->)", lambda mm: mm.group(1) + "\n".join(lines) + "\n" + mm.group(2), s, flags=re.S)
     open(os.path.join(VERIF, "DESIGN.md"), "w").write(s)
     print("tables regenerated: %d seeded, %d sensitivity rows" % (len(glob.glob(os.path.join(VERIF, "seeded", "*", "meta.json"))), len(sens)))
 
